@@ -39,7 +39,7 @@ COMPONENTS = {
     "simulated": ["operation history (seeded)", "file object / output file in tmpfs scratch", "clock seen by zipfile/openpyxl (frozen)", "sys.argv/stdout/stderr of potable"],
     "stubbed": [],
 }
-EXPECTED_PROBES = ["two-live-views-different-filters", "older-view-read-after-newer-created", "empty-include-set", "empty-exclude-set",
+EXPECTED_PROBES = ["same-species-set-under-both-modes", "two-live-views-different-filters", "older-view-read-after-newer-created", "empty-include-set", "empty-exclude-set",
                    "unknown-label-in-set", "set-container", "tabulate-through-view", "base-read-after-view", "cli-include", "cli-exclude",
                    "filter-removes-all-entries", "zero-filled-species-after-filter"]
 
@@ -143,9 +143,22 @@ def gen_scenario(seed, tier="quick"):
         r = rng.random()
         if (not live) or (r < 0.3 and len(live) < 4):
             kind, S = gen_species_set(rng, species)
+            mode = rng.choice(["include", "exclude"])
+            prev = [o for o in ops if o["op"] == "view"]
+            if prev and rng.random() < 0.35:
+                # a view related to an earlier one: the same species set under the other mode, or the same
+                # filter spelled differently (order, container) - state keyed on only part of a filter collides here
+                p0 = rng.choice(prev)
+                S = list(p0["species"])
+                kind = p0["setkind"]
+                if rng.random() < 0.6:
+                    mode = "exclude" if p0["mode"] == "include" else "include"
+                else:
+                    mode = p0["mode"]
+                    rng.shuffle(S)
             name = "v%d" % nviews
             nviews += 1
-            ops.append({"op": "view", "name": name, "mode": rng.choice(["include", "exclude"]), "species": S, "setkind": kind,
+            ops.append({"op": "view", "name": name, "mode": mode, "species": S, "setkind": kind,
                         "container": rng.choice(["list", "list", "tuple", "set"])})
             live.append(name)
         elif r < 0.7:
@@ -502,6 +515,8 @@ def _probes(sc, ref, res, bump):
             bump("setkind=" + op["setkind"])
         if op["op"] == "view":
             order += 1
+            if any(o[1] != op["mode"] and sorted(o[2]) == sorted(op["species"]) for o in live.values()):
+                bump("probe:same-species-set-under-both-modes")
             live[op["name"]] = (order, op["mode"], tuple(op["species"]))
             if len(set(x[1:] for x in live.values())) >= 2:
                 bump("probe:two-live-views-different-filters")
